@@ -142,19 +142,11 @@ func extractInlineClass(selector string) (string, bool) {
 		return "", false
 	}
 
-	withoutDot := trimmed[1:]
-	end := len(withoutDot)
-	for i, r := range withoutDot {
-		switch r {
-		case ' ', '\t', '\n', '\r', '.', '#', ':', '>', '+', '~', '[':
-			end = i
-			goto done
-		}
-	}
-
-done:
-	className := strings.TrimSpace(withoutDot[:end])
-	if className == "" {
+	// Only a lone class selector (".name") is inlined. A selector that goes on after the
+	// class name (".a .b", ".a.b", ".a:hover", ".a > b", ".a[x]") also depends on something
+	// other than the element's own class and must not be applied to every element of class a.
+	className := trimmed[1:]
+	if className == "" || strings.ContainsAny(className, " \t\n\r.#:>+~[*,") {
 		return "", false
 	}
 	return className, true
